@@ -288,10 +288,14 @@ def chunks(ctx, prog):
                 rem = ("bin", "Rem", L, N)
                 untyped = [_untyped(c) for c in conds]
                 ok = (at == N and _untyped(eq(rem, Int(0))) in untyped) or (at == rem and _untyped(ne(rem, Int(0))) in untyped)
+                # one expression for both cases: (len - 1) % size + 1  (len = q*size: size; len = q*size + r, 0 < r < size: r) -
+                # exact for len >= 1 (the slice field is Some only when non-empty: constructors and some_if_nonempty) and without the
+                # overflow that `len + size - 1` has
+                ok = ok or _untyped(at) == _untyped(("bin", "Add", ("bin", "Rem", Sub(L, Int(1)), N), Int(1)))
                 item_i, rest_i = 0, 1
             if not ok:
                 msg = "splits at %s under %s; accepted idioms: %s" % (show(at), [sym.show_atom(c) for c in conds if "Rem" in repr(c)],
-                                                                       "(len-1)/size*size | (len-1)-(len-1)%size | len-((len-1)%size+1)" if ty == "Chunks" else "if len%size==0 {size} else {len%size}")
+                                                                       "(len-1)/size*size | (len-1)-(len-1)%size | len-((len-1)%size+1)" if ty == "Chunks" else "if len%size==0 {size} else {len%size} | (len-1)%size+1")
             it, st = v[2][2], v[2][3]
             if it != ("field", sa, item_i):
                 msg = msg or "yields %s, expected part %d of the split" % (show(it), item_i)
